@@ -1,7 +1,7 @@
 # Author: Bohua Zhan
 
 from typing import Tuple
-from kernel.type import TFun, BoolType, TyInst
+from kernel.type import TFun, BoolType, TyInst, TypeMatchException
 from kernel import term
 from kernel.term import Term, Const, Implies, Eq, Forall, Lambda, Inst
 from kernel import term_ord
@@ -287,9 +287,16 @@ class Thm:
 
         """
         try:
+            # Type variables are instantiated by matching the types of the
+            # schematic variables with the types of their instances. Complete
+            # this matching over the whole sequent first, so that hypotheses
+            # and conclusion receive the same type instantiation.
+            for v in term.get_svars(list(th.hyps) + [th.prop]):
+                if v.name in inst:
+                    v.T.match_incr(inst[v.name].get_type(), inst.tyinst)
             hyps_new = tuple(hyp.subst(inst) for hyp in th.hyps)
             prop_new = th.prop.subst(inst)
-        except term.TermException:
+        except (term.TermException, term.TypeCheckException, TypeMatchException):
             raise InvalidDerivationException("substitution")
         return Thm(prop_new, hyps_new)
 
